@@ -79,7 +79,8 @@ class Plan:
             for i, kid in enumerate(t["kids"]):
                 out += self.containers(kid, {"k": "field", "e": place, "f": "F%d" % (i + 1)}, False)
         elif k == "ar":
-            out += self.containers(t["kids"][0], {"k": "index", "e": place, "i": progen.lit_ast(BY["i32"], 0)}, False)
+            for i in range(t["a"]):          # every element position: the stride matters from index 1 on
+                out += self.containers(t["kids"][0], {"k": "index", "e": place, "i": progen.lit_ast(BY["i32"], i)}, False)
         return out
 
     def value(self, t, ctr, r):
@@ -188,6 +189,16 @@ def program(t):
             i1 = {"k": "index", "e": place, "i": progen.lit_ast(BY["i32"], at["a"] - 1)}
             main.append({"k": "assign", "lv": i0, "e": i1})
             observe(main, "v")
+            # ... and into the last position, from a fresh value and from the first element
+            tmpc[0] += 1
+            ev = "x%d" % tmpc[0]
+            main.append({"k": "let", "n": ev, "dty": pl.tyname(at["kids"][0]), "e": pl.value(at["kids"][0], [70], 70)})
+            main.append({"k": "assign", "lv": i1, "e": var(ev)})
+            observe(main, "v")
+            if at["a"] > 2:
+                im = {"k": "index", "e": place, "i": progen.lit_ast(BY["i32"], 1)}
+                main.append({"k": "assign", "lv": im, "e": i0})
+                observe(main, "v")
     # by-value parameter and return value
     if t["k"] in ("st", "ar"):
         body = []
@@ -220,24 +231,48 @@ def arrays(pl, t, place):
 
 
 def result_program(t):
-    okt, ert = t["kids"][0]["n"], t["kids"][1]["n"]
-    funcs = {"mk": {"params": ["f"], "ptys": ["bool"], "rty": "%s ! %s" % (ert, okt), "body": [
-        {"k": "if", "c": var("f"), "t": [{"k": "let", "n": "e", "dty": ert, "e": lit(ert, leafval(ert, 1, 1))},
+    """Result types: a function returns ok(value) or err(value); the caller observes which one arrived (the
+    discriminant), every component of the payload, and its own locals around the call."""
+    okT, erT = t["kids"]
+    pl = Plan({"k": "st", "n": "", "a": 2, "kids": [okT, erT]})      # names the struct types of both payloads
+    pl.types.pop()                                                   # the synthetic root itself is not declared
+    okn, ern = pl.tyname(okT), pl.tyname(erT)
+    funcs = {"mk": {"params": ["f"], "ptys": ["bool"], "rty": "%s ! %s" % (ern, okn), "body": [
+        {"k": "if", "c": var("f"), "t": [{"k": "let", "n": "e", "dty": ern, "e": pl.value(erT, [10], 1)},
                                           {"k": "reterr", "e": var("e")}], "e": []},
-        {"k": "let", "n": "x", "dty": okt, "e": lit(okt, leafval(okt, 0, 1))},
+        {"k": "let", "n": "x", "dty": okn, "e": pl.value(okT, [0], 1)},
         {"k": "retok", "e": var("x")}]}}
-    main = [
+
+    def show(root, ty):
+        return [{"k": "print", "e": place} for place, ut in pl.units(ty, var(root)) if ut["k"] == "p"]
+    guards = [{"k": "print", "e": var(g)} for g in ("g1", "g2", "g3")]
+    # the handler leaves the function: works for every payload type
+    funcs["use"] = {"params": ["f"], "ptys": ["bool"], "body": [
         {"k": "let", "n": "g1", "dty": "u64", "e": lit("u64", 0xA5A5A5A5A5A5A5A5)},
-        {"k": "let", "n": "d", "dty": okt, "e": lit(okt, leafval(okt, 5, 2))},
         {"k": "let", "n": "g2", "dty": "u8", "e": lit("u8", 0x5A)},
-        {"k": "let", "n": "a", "dty": okt, "e": {"k": "catch", "call": {"k": "call", "f": "mk", "args": [{"k": "bool", "v": False}]},
-                                                  "n": "e", "h": [], "fb": var("d")}},
         {"k": "let", "n": "g3", "dty": "u64", "e": lit("u64", 0x3C3C3C3C3C3C3C3C)},
-        {"k": "print", "e": var("a")},
-        {"k": "let", "n": "b", "dty": okt, "e": {"k": "catch", "call": {"k": "call", "f": "mk", "args": [{"k": "bool", "v": True}]},
-                                                  "n": "e2", "h": [{"k": "print", "e": var("e2")}], "fb": var("d"), "ind": 2}},
-        {"k": "print", "e": var("b")},
-        {"k": "print", "e": var("a")},
-        {"k": "print", "e": var("g1")}, {"k": "print", "e": var("g2")}, {"k": "print", "e": var("g3")},
-    ]
-    return {"types": [], "funcs": funcs, "main": main}
+        {"k": "let", "n": "v", "dty": "", "e": {"k": "catch", "call": {"k": "call", "f": "mk", "args": [var("f")]}, "n": "e2",
+                                                "h": [{"k": "print", "e": {"k": "str", "v": "err"}}] + show("e2", erT) + guards + [{"k": "retvoid"}],
+                                                "fb": {"k": "bool", "v": False}, "nofb": True, "ind": 2}},
+        {"k": "print", "e": {"k": "str", "v": "ok"}}] + show("v", okT) + guards}
+    main = [{"k": "expr", "e": {"k": "call", "f": "use", "args": [{"k": "bool", "v": False}]}},
+            {"k": "expr", "e": {"k": "call", "f": "use", "args": [{"k": "bool", "v": True}]}},
+            {"k": "expr", "e": {"k": "call", "f": "use", "args": [{"k": "bool", "v": False}]}}]
+    if okT["k"] == "p":
+        # with a fallback value (primitive payloads): both outcomes bound into the caller's frame between guards
+        okt = okT["n"]
+        main += [
+            {"k": "let", "n": "g1", "dty": "u64", "e": lit("u64", 0xA5A5A5A5A5A5A5A5)},
+            {"k": "let", "n": "d", "dty": okt, "e": lit(okt, leafval(okt, 5, 2))},
+            {"k": "let", "n": "g2", "dty": "u8", "e": lit("u8", 0x5A)},
+            {"k": "let", "n": "a", "dty": okt, "e": {"k": "catch", "call": {"k": "call", "f": "mk", "args": [{"k": "bool", "v": False}]},
+                                                      "n": "e", "h": [], "fb": var("d")}},
+            {"k": "let", "n": "g3", "dty": "u64", "e": lit("u64", 0x3C3C3C3C3C3C3C3C)},
+            {"k": "print", "e": var("a")},
+            {"k": "let", "n": "b", "dty": okt, "e": {"k": "catch", "call": {"k": "call", "f": "mk", "args": [{"k": "bool", "v": True}]},
+                                                      "n": "e3", "h": [{"k": "print", "e": {"k": "str", "v": "handled"}}], "fb": var("d"), "ind": 2}},
+            {"k": "print", "e": var("b")},
+            {"k": "print", "e": var("a")},
+            {"k": "print", "e": var("g1")}, {"k": "print", "e": var("g2")}, {"k": "print", "e": var("g3")},
+        ]
+    return {"types": pl.types, "funcs": funcs, "main": main}
